@@ -291,6 +291,12 @@ def check_property(prop, targets, *, tier="quick", assumptions=(), trusted_base=
             confirmed = bool(o.get("confirmed", True))
             rp["native_replay"] = {"confirmed": confirmed, "note": "decided by computation on the real source; witness sites in detail"}
         path = os.path.join(replay_dir, safe(key) + ".json")
+        if o.get("smt2"):
+            # the verifier's query (path condition and negated goal), as given to the solvers
+            qpath = os.path.join(replay_dir, safe(key) + ".smt2")
+            with open(qpath, "w") as qf:
+                qf.write(o["smt2"])
+            rp["query"] = qpath
         rp["rerun"] = f"cd /verif && ./check {prop} --replay {path}"
         with open(path, "w") as f:
             json.dump(rp, f, indent=1, default=str)
